@@ -150,6 +150,20 @@ def mapcondOf : String → Option (Int → Int → Bool)
   | "never" => some (fun _ _ => false)
   | _ => none
 
+def sumIdxOf : String → Option (Nat → Int → Int)
+  | "val" => some (fun _ v => v)
+  | "idxval" => some (fun i v => (i : Int) + v)
+  | "wt" => some (fun i v => (i : Int) * v)
+  | "one" => some (fun _ _ => 1)
+  | _ => none
+
+def sumKVOf : String → Option (Int → Int → Int)
+  | "val" => some (fun _ v => v)
+  | "key" => some (fun k _ => k)
+  | "kv" => some (fun k v => k * v)
+  | "one" => some (fun _ _ => 1)
+  | _ => none
+
 /-- callback that may be `nilfn` -/
 def optCb {α : Type} (tbl : String → Option α) (s : String) : Option (Option α) :=
   if s == "nilfn" then some none else (tbl s).map some
